@@ -1532,6 +1532,9 @@ def _unkey_names(kn):
 
 def shrink(case):
     ops, init = case["ops"], case["init"]
+    for op in ops:      # a long transaction: first try it alone (every candidate that still fails costs a 1000-statement parse)
+        if op[0] == "bulk" and (len(ops) > 1 or init):
+            yield {**case, "ops": [op], "init": [], "ginit": []}
     for i in range(len(ops)):
         yield {**case, "ops": ops[:i] + ops[i + 1:]}
     for i in range(len(init)):
